@@ -14,7 +14,11 @@ Inductive case :=
    function's result and nerr the context error; maxg/maxtot = highest gauge seen inside the
    wrapped function per path / in total; o0 = observation after all calls returned; then a forced
    history h on the SAME limiter object *)
-| Free (epl tot : Z) (n nok nerr : Z) (maxg : list Z) (maxtot : Z) (o0 : obs) (nk : N) (n2 : N) (h : list (ev * obs)).
+| Free (epl tot : Z) (n nok nerr : Z) (maxg : list Z) (maxtot : Z) (o0 : obs) (nk : N) (n2 : N) (h : list (ev * obs))
+(* the limits configured on a real connection: after every step of a script of Get / Observe /
+   Observation.Cancel calls and peer answers, the requests on the wire that the peer has not answered yet,
+   per path; hung = 1 if some call had not returned long after everything was answered *)
+| Wire (epl tot : Z) (snaps : list (list Z)) (hung : Z).
 
 Definition code (s : status) : N :=
   match s with
@@ -77,6 +81,7 @@ Definition agrees (c : case) : bool :=
   | H epl tot n nk h => agrees_hist true n nk (new_lim tot epl) [] h
   | Free epl tot n nok nerr maxg maxtot o0 nk n2 h =>
       (nok + nerr =? n) && agrees_hist true n2 nk (new_lim tot epl) [] h
+  | Wire _ _ _ _ => true
   end.
 
 Definition obs0 (n nk : N) : obs := observe (new_lim 0 0) n nk.
@@ -94,6 +99,11 @@ Definition pclass (c : case) : N :=
       else if negb (idle_obs o0) then 5%N
       else if negb (nok + nerr =? n) then 7%N
       else hist_class epl tot (obs0 n2 nk) [] h
+  | Wire epl tot snaps hung =>
+      if limited epl && negb (forallb (forallb (fun g => g <=? epl)) snaps) then 1%N
+      else if limited tot && negb (forallb (fun s => fold_right Z.add 0 s <=? tot) snaps) then 2%N
+      else if negb (hung =? 0) then 7%N
+      else 0%N
   end.
 
 Definition mismatches (cs : list case) : list N := bad_indices (fun c => negb (agrees c)) cs.
